@@ -130,7 +130,7 @@ fn fused_check<I: DoubleEndedIterator + ExactSizeIterator>(it: &mut I) -> bool {
     it.next().is_none() && it.next_back().is_none() && it.next().is_none() && it.next_back().is_none() && it.len() == 0
 }
 
-fn run_shared<I, F>(it: I, pat: &[bool], clone_at: u8, i: usize, mut f: F) -> IterOut
+fn run_shared<I, F>(it: I, pat: &[bool], clone_at: u8, i: usize, fin: u8, mut f: F) -> IterOut
 where
     I: DoubleEndedIterator + ExactSizeIterator + Clone,
     F: FnMut(I::Item, Option<u32>) -> (i32, i64),
@@ -145,15 +145,17 @@ where
         let rev: Vec<bool> = pat[ca..].iter().rev().map(|b| !*b).collect();
         let clone_evs = step_iter(&mut cl, &rev, i, 0, false, &mut f);
         let fused_ok = fused_check(&mut it) && fused_check(&mut cl);
-        IterOut { initial_hint, evs, clone_evs, count_rest: it.count(), clone_count_rest: cl.count(), fused_ok }
+        let (fin_items, fin_lens, count_rest) = iter_finish(it, fin, &mut |x| f(x, None));
+        IterOut { initial_hint, evs, clone_evs, count_rest, clone_count_rest: cl.count(), fused_ok, fin_items, fin_lens }
     } else {
         let evs = step_iter(&mut it, pat, i, 0, false, &mut f);
         let fused_ok = fused_check(&mut it);
-        IterOut { initial_hint, evs, clone_evs: vec![], count_rest: it.count(), clone_count_rest: 0, fused_ok }
+        let (fin_items, fin_lens, count_rest) = iter_finish(it, fin, &mut |x| f(x, None));
+        IterOut { initial_hint, evs, clone_evs: vec![], count_rest, clone_count_rest: 0, fused_ok, fin_items, fin_lens }
     }
 }
 
-fn run_excl<I, F>(it: I, pat: &[bool], write: bool, i: usize, mut f: F) -> IterOut
+fn run_excl<I, F>(it: I, pat: &[bool], write: bool, i: usize, fin: u8, mut f: F) -> IterOut
 where
     I: DoubleEndedIterator + ExactSizeIterator,
     F: FnMut(I::Item, Option<u32>) -> (i32, i64),
@@ -162,7 +164,8 @@ where
     let initial_hint = it.size_hint();
     let evs = step_iter(&mut it, pat, i, 0, write, &mut f);
     let fused_ok = fused_check(&mut it);
-    IterOut { initial_hint, evs, clone_evs: vec![], count_rest: it.count(), clone_count_rest: 0, fused_ok }
+    let (fin_items, fin_lens, count_rest) = iter_finish(it, fin, &mut |x| f(x, None));
+    IterOut { initial_hint, evs, clone_evs: vec![], count_rest, clone_count_rest: 0, fused_ok, fin_items, fin_lens }
 }
 
 fn kv<K: KeyLike>(x: (&K, &TVal), _w: Option<u32>) -> (i32, i64) {
@@ -189,20 +192,20 @@ fn vom(x: &mut TVal, w: Option<u32>) -> (i32, i64) {
 
 /// dispatch the ten per-list iterator families of TwoQueueCache / AdaptiveCache
 macro_rules! list_iters {
-    ($c:expr, $fam:expr, $pat:expr, $ca:expr, $w:expr, $i:expr,
+    ($c:expr, $fam:expr, $pat:expr, $ca:expr, $w:expr, $i:expr, $fin:expr,
      $iter:ident, $iter_lru:ident, $iter_mut:ident, $iter_lru_mut:ident, $keys:ident, $keys_lru:ident,
      $values:ident, $values_lru:ident, $values_mut:ident, $values_lru_mut:ident) => {
         match $fam {
-            0 => run_shared($c.$iter(), $pat, $ca, $i, kv::<K>),
-            1 => run_shared($c.$iter_lru(), $pat, $ca, $i, kv::<K>),
-            2 => run_excl($c.$iter_mut(), $pat, $w, $i, kvm::<K>),
-            3 => run_excl($c.$iter_lru_mut(), $pat, $w, $i, kvm::<K>),
-            4 => run_shared($c.$keys(), $pat, $ca, $i, ko::<K>),
-            5 => run_shared($c.$keys_lru(), $pat, $ca, $i, ko::<K>),
-            6 => run_shared($c.$values(), $pat, $ca, $i, vo),
-            7 => run_shared($c.$values_lru(), $pat, $ca, $i, vo),
-            8 => run_excl($c.$values_mut(), $pat, $w, $i, vom),
-            _ => run_excl($c.$values_lru_mut(), $pat, $w, $i, vom),
+            0 => run_shared($c.$iter(), $pat, $ca, $i, $fin, kv::<K>),
+            1 => run_shared($c.$iter_lru(), $pat, $ca, $i, $fin, kv::<K>),
+            2 => run_excl($c.$iter_mut(), $pat, $w, $i, $fin, kvm::<K>),
+            3 => run_excl($c.$iter_lru_mut(), $pat, $w, $i, $fin, kvm::<K>),
+            4 => run_shared($c.$keys(), $pat, $ca, $i, $fin, ko::<K>),
+            5 => run_shared($c.$keys_lru(), $pat, $ca, $i, $fin, ko::<K>),
+            6 => run_shared($c.$values(), $pat, $ca, $i, $fin, vo),
+            7 => run_shared($c.$values_lru(), $pat, $ca, $i, $fin, vo),
+            8 => run_excl($c.$values_mut(), $pat, $w, $i, $fin, vom),
+            _ => run_excl($c.$values_lru_mut(), $pat, $w, $i, $fin, vom),
         }
     };
 }
@@ -214,12 +217,13 @@ fn lru_iter<K: KeyLike, E: OnEvictCallback, S: BuildHasher>(
     ca: u8,
     w: bool,
     i: usize,
+    fin: u8,
 ) -> IterOut {
     match fam {
-        10 => run_shared((&*c).into_iter(), pat, ca, i, kv::<K>),
-        11 => run_excl((&mut *c).into_iter(), pat, w, i, kvm::<K>),
+        10 => run_shared((&*c).into_iter(), pat, ca, i, fin, kv::<K>),
+        11 => run_excl((&mut *c).into_iter(), pat, w, i, fin, kvm::<K>),
         f => list_iters!(
-            c, f, pat, ca, w, i, iter, iter_lru, iter_mut, iter_lru_mut, keys, keys_lru, values, values_lru,
+            c, f, pat, ca, w, i, fin, iter, iter_lru, iter_mut, iter_lru_mut, keys, keys_lru, values, values_lru,
             values_mut, values_lru_mut
         ),
     }
@@ -310,7 +314,7 @@ fn lru_op<K: KeyLike, E: OnEvictCallback, S: BuildHasher>(c: &mut RawLRU<K, TVal
             Out::ContainsOrPut(a, b.map(conv_pr))
         }
         Op::RemoveLru => Out::KV(c.remove_lru().map(|(k, v)| (k.payload(), v.read()))),
-        Op::Iter { list: 0, fam, pat, clone_at, write } => Out::Iter(lru_iter(c, *fam, pat, *clone_at, *write, i)),
+        Op::Iter { list: 0, fam, pat, clone_at, write, fin } => Out::Iter(lru_iter(c, *fam, pat, *clone_at, *write, i, *fin)),
         _ => Out::Unsupported,
     }
 }
@@ -432,21 +436,21 @@ impl<K: KeyLike> Sut<K> {
                         Out::Nums(vec![c.recent_len() as u64, c.frequent_len() as u64, c.ghost_len() as u64])
                     }
                     Op::Debug => Out::Text(format!("{:?}", c)),
-                    Op::Iter { list, fam, pat, clone_at, write } => {
-                        let (f, p, ca, w) = (*fam, &pat[..], *clone_at, *write);
+                    Op::Iter { list, fam, pat, clone_at, write, fin } => {
+                        let (f, p, ca, w, fin) = (*fam, &pat[..], *clone_at, *write, *fin);
                         Out::Iter(match list {
                             0 => list_iters!(
-                                c, f, p, ca, w, i, recent_iter, recent_iter_lru, recent_iter_mut, recent_iter_lru_mut,
+                                c, f, p, ca, w, i, fin, recent_iter, recent_iter_lru, recent_iter_mut, recent_iter_lru_mut,
                                 recent_keys, recent_keys_lru, recent_values, recent_values_lru, recent_values_mut,
                                 recent_values_lru_mut
                             ),
                             1 => list_iters!(
-                                c, f, p, ca, w, i, frequent_iter, frequent_iter_lru, frequent_iter_mut,
+                                c, f, p, ca, w, i, fin, frequent_iter, frequent_iter_lru, frequent_iter_mut,
                                 frequent_iter_lru_mut, frequent_keys, frequent_keys_lru, frequent_values,
                                 frequent_values_lru, frequent_values_mut, frequent_values_lru_mut
                             ),
                             _ => list_iters!(
-                                c, f, p, ca, w, i, ghost_iter, ghost_iter_lru, ghost_iter_mut, ghost_iter_lru_mut,
+                                c, f, p, ca, w, i, fin, ghost_iter, ghost_iter_lru, ghost_iter_mut, ghost_iter_lru_mut,
                                 ghost_keys, ghost_keys_lru, ghost_values, ghost_values_lru, ghost_values_mut,
                                 ghost_values_lru_mut
                             ),
@@ -467,27 +471,27 @@ impl<K: KeyLike> Sut<K> {
                         c.frequent_evict_len() as u64,
                         c.partition() as u64,
                     ]),
-                    Op::Iter { list, fam, pat, clone_at, write } => {
-                        let (f, p, ca, w) = (*fam, &pat[..], *clone_at, *write);
+                    Op::Iter { list, fam, pat, clone_at, write, fin } => {
+                        let (f, p, ca, w, fin) = (*fam, &pat[..], *clone_at, *write, *fin);
                         Out::Iter(match list {
                             0 => list_iters!(
-                                c, f, p, ca, w, i, recent_iter, recent_iter_lru, recent_iter_mut, recent_iter_lru_mut,
+                                c, f, p, ca, w, i, fin, recent_iter, recent_iter_lru, recent_iter_mut, recent_iter_lru_mut,
                                 recent_keys, recent_keys_lru, recent_values, recent_values_lru, recent_values_mut,
                                 recent_values_lru_mut
                             ),
                             1 => list_iters!(
-                                c, f, p, ca, w, i, frequent_iter, frequent_iter_lru, frequent_iter_mut,
+                                c, f, p, ca, w, i, fin, frequent_iter, frequent_iter_lru, frequent_iter_mut,
                                 frequent_iter_lru_mut, frequent_keys, frequent_keys_lru, frequent_values,
                                 frequent_values_lru, frequent_values_mut, frequent_values_lru_mut
                             ),
                             2 => list_iters!(
-                                c, f, p, ca, w, i, recent_evict_iter, recent_evict_iter_lru, recent_evict_iter_mut,
+                                c, f, p, ca, w, i, fin, recent_evict_iter, recent_evict_iter_lru, recent_evict_iter_mut,
                                 recent_evict_iter_lru_mut, recent_evict_keys, recent_evict_keys_lru,
                                 recent_evict_values, recent_evict_values_lru, recent_evict_values_mut,
                                 recent_evict_values_lru_mut
                             ),
                             _ => list_iters!(
-                                c, f, p, ca, w, i, frequent_evict_iter, frequent_evict_iter_lru,
+                                c, f, p, ca, w, i, fin, frequent_evict_iter, frequent_evict_iter_lru,
                                 frequent_evict_iter_mut, frequent_evict_iter_lru_mut, frequent_evict_keys,
                                 frequent_evict_keys_lru, frequent_evict_values, frequent_evict_values_lru,
                                 frequent_evict_values_mut, frequent_evict_values_lru_mut
